@@ -18,6 +18,7 @@ from harness.core import coqQ, coq_list, coq_string
 
 THEOREMS = ['C08_substitution', 'C08_accepts', 'C08_names_counts', 'C08_names_order', 'C08_state_is_net',
             'C08_history_independent', 'C08_fix_then_release', 'C08_nothing_fixed_is_identity',
+            'C08_rename_free_only', 'C08_rename_keeps_fixed_names', 'C08_rename_old_code_refuted',
             'C08_buffers_refine_spec', 'C08_buffers_observe']
 HEADER = '''From Coq Require Import ZArith QArith List Bool String.
 From Chi Require Import Model.Fixing Tie.C08Tie.
@@ -295,12 +296,24 @@ def gen_history(rng, subj):
                 items.append(('no such parameter', 1.0))
             op = ('fix', items)
         ops.append(op)
+        bases_before = None
+        if op[0] == 'par_names' and op[1] is not None:
+            try:
+                bases_before = list(subj.inner.get_parameter_names(exclude_dim_names=True))
+            except TypeError:
+                bases_before = None
         subj.apply(op)
         subj.history = list(ops)
         if op[0] == 'par_names' and op[1] is not None:
             # renaming the free parameters leaves the fixed ones under their names (they are released by name)
             fixed_now = net_of(subj.orig_names, subj.trans)
             after = subj.full_names()
+            if bases_before is not None and len(bases_before) == len(names) and all(
+                    f == b or f.startswith(b + ' ') for f, b in zip(names, bases_before)):
+                subj.renames = getattr(subj, 'renames', []) + [{
+                    'mask': [n0 in fixed_now for n0 in subj.orig_names],
+                    'ps': [(b, f[len(b) + 1:]) for f, b in zip(names, bases_before)],
+                    'new': list(op[1]), 'after': list(after)}]
             for i, n0 in enumerate(subj.orig_names):
                 if n0 in fixed_now and after[i] != names[i] and not getattr(subj, 'name_problem', None):
                     subj.name_problem = ('set_parameter_names(%r) on the free parameters renamed the fixed parameter '
@@ -340,6 +353,7 @@ def run_case(seed):
     out = {'seed': seed, 'kind': kind, 'sub': sub}
     ops = gen_history(rng, subj)
     out['ops'] = ops
+    out['renames'] = getattr(subj, 'renames', [])
     if getattr(subj, 'name_problem', None):
         out['violation'] = subj.name_problem
         return out
@@ -414,9 +428,21 @@ def key_of(case, what):
     return 'C08|%s' % case.get('kind')
 
 
+HEADER_RENAME = '''From Coq Require Import List Bool String.
+From Chi Require Import Model.Fixing.
+Import ListNotations.
+Open Scope string_scope.
+Fixpoint lstr_eqb (a b : list string) : bool :=
+  match a, b with [], [] => true | x :: a', y :: b' => String.eqb x y && lstr_eqb a' b' | _, _ => false end.
+(* observed on chi: the published names of the wrapped model after ReducedPopulationModel.set_parameter_names(new) *)
+Definition c08_rename (mask : list bool) (ps : list (string * string)) (new observed : list string) : bool :=
+  lstr_eqb (map full (rename mask ps new)) observed.
+'''
+
+
 def run(ck):
     n = ck.n(400, 6000)
-    exprs, payload = [], {}
+    exprs, rexprs, payload = [], [], {}
     for i in range(n):
         seed = ck.seed * 100003 + i
         try:
@@ -438,6 +464,11 @@ def run(ck):
             ck.count('value outside the model domain: reduced and unfixed object raise alike')
             continue
         label = 'h%d' % i
+        for q, r in enumerate(out.get('renames', [])):
+            rexprs.append(('%s_%d' % (label, q), 'c08_rename %s %s %s %s' % (
+                coq_list(r['mask'], core.coq_bool),
+                coq_list(r['ps'], lambda bd: '(%s, %s)' % (core.coq_string(bd[0]), core.coq_string(bd[1]))),
+                coq_list(r['new'], core.coq_string), coq_list(r['after'], core.coq_string))))
         exprs.append((label, coq_expr(out)))
         payload[label] = {'seed': seed, 'kind': out['kind'], 'sub': out['sub'], 'ops': out['ops']}
     ck.cov['rule'] = ('histories of 1-4 operations (fix with 1-3 keys in shuffled order incl. release and unknown '
@@ -445,7 +476,12 @@ def run(ck):
                       'population models) on ReducedErrorModel (recording and real), ReducedMechanisticModel, '
                       'ReducedPopulationModel (9 kinds), LogLikelihood (recording and real error models) and '
                       'PredictiveModel; every case evaluates the object; distinct = distinct (kind, history)')
-    ck.log('exact route: %d histories' % len(exprs))
+    ck.log('exact route: %d histories, %d renamings' % (len(exprs), len(rexprs)))
+    rbad = ck.exact('renaming', HEADER_RENAME, rexprs, shard=200)
+    if rbad:
+        ck.settle('correspondence C08: the renaming model of Model/Fixing.v and chi differ on %s (first: %s)' % (
+            rbad[:5], payload.get(rbad[0].split('_')[0])), [payload[b.split('_')[0]] for b in rbad if b.split('_')[0] in payload],
+            oracle, ({'seed': ck.seed * 7 + j} for j in range(ck.n(500, 5000))), key_of)
     bad = ck.exact('fixing', HEADER, exprs, shard=200)
     if bad:
         ck.settle('correspondence C08: Model/Fixing.v and chi differ on %s (first: %s)' % (bad[:5], payload[bad[0]]),
